@@ -16,9 +16,9 @@ def placement_rules(rep, w):
         gen_kinds = [(g.kind_and_name()) for g in p.generated]
         if p.kind == "fn":
             rep.count("entraited_fns")
-            if not any(k == "trait" for k, n in gen_kinds) or not any(k == "impl" for k, n in gen_kinds):
-                rep.add("W-TWIN", key + " generated-after", "trait and impl generated for `%s` do not directly follow the function (found after it: %s)"
-                        % (p.name, gen_kinds))
+            if ("trait", p.attr.trait_name) not in gen_kinds or not any(k == "impl" for k, n in gen_kinds):
+                rep.add("W-TWIN", key + " generated-after", "trait `%s` and its impl do not follow the function `%s` (found after it: %s)"
+                        % (p.attr.trait_name, p.name, gen_kinds))
         elif p.kind == "mod":
             rep.count("entraited_mods")
             inner = getattr(p, "inner_generated", [])
